@@ -11,6 +11,8 @@ Workload (seeded, JSON-able cases):
             of the BIOGEME methods executed by the call, and SIGKILL delivered by strace on
             entering every openat/write/close/rename/... system call of the call; each distinct
             file state found is then handed to a fresh estimate();
+  bootstrap estimate(run_bootstrap=True): evaluations on resamples must not replace the saved point;
+  interleaved  calculate_init_likelihood / simulate / quick_estimate / validate between two estimations;
   directed  deterministic regression cases of the five repaired defects + probes (run in both tiers).
 Monitors: class-level wrappers around calculate_likelihood_and_derivatives / calculate_likelihood /
 optimize / estimate recording the point, the returned value, gradient finiteness and the bytes of
@@ -52,8 +54,12 @@ ASSUMPTIONS = [
     'a point counts as "with finite derivatives" when every component of the returned gradient is finite and the returned likelihood is not NaN',
     'the oracle demands that the file exists after a best-so-far evaluation with finite derivatives (the statement says "while iterations are '
     'being saved"); a writer that never writes would otherwise satisfy the property vacuously',
-    'parameter names containing brackets, quotes or commas make the external C++ engine abort and are outside the workload; names containing '
-    '"=" or starting/ending with white space are exercised only by directed cases',
+    'parameter names are drawn from everything a Beta accepts that fits on one line (leading "#", ";", "//", "[", quotes, brackets, commas, '
+    'numbers, "nan"/"inf", edge blanks, " = " inside, a name equal to another one plus a blank, unicode, 200-420 characters); a forked probe builds '
+    'the model and evaluates it once: names refused by the library (exception) or by the external engine (its signature parser aborts the '
+    'process on some characters) are replaced by plain names and counted as names_refused_by_library_*; names containing line breaks are not generated',
+    'an evaluation counts as made "on the estimation data" when the value returned equals (rtol 1e-9) the numpy reference of the likelihood on '
+    'the estimation data at that point; inside estimate(run_bootstrap=True) other evaluations are those of the bootstrap resamples',
 ]
 MIN_DISTINCT = {'quick': 300, 'thorough': 3000}
 CASE_TIMEOUT = 1500  # watchdog only (the machine is shared); a crash case makes several hundred forks
@@ -61,12 +67,14 @@ CASE_TIMEOUT = 1500  # watchdog only (the machine is shared); a crash case makes
 N_SCRIPTED = {'quick': 140, 'thorough': 1000}
 N_OPTIM = {'quick': 45, 'thorough': 315}
 N_CRASH = {'quick': 12, 'thorough': 80}
+N_BOOT = {'quick': 9, 'thorough': 45}
+N_INTER = {'quick': 9, 'thorough': 45}
 N_CRASH_OPTIM = {'quick': 9, 'thorough': 36}
 
 ALGOS = ['scipy', 'LS-newton', 'TR-newton', 'LS-BFGS', 'TR-BFGS', 'simple_bounds', 'simple_bounds_newton', 'simple_bounds_BFGS', 'automatic']
 BOUND_ALGOS = {'scipy', 'simple_bounds', 'simple_bounds_newton', 'simple_bounds_BFGS', 'automatic'}
 DIRECTED = ['worse-overwrites-better', 'kill-inside-save-block', 'nan-first-likelihood', 'edge-whitespace-name', 'equals-in-name',
-            'big-file-kill', 'list-point-nonfinite']
+            'big-file-kill', 'list-point-nonfinite', 'comment-like-names', 'bootstrap-overwrites']
 SYSCALLS = ['openat', 'write', 'close', 'rename', 'renameat', 'renameat2', 'unlink', 'unlinkat', 'ftruncate', 'fsync', 'fdatasync']
 TOOL_ID = 4  # failpoint tool (forked copies only)
 SNAP_TOOL_ID = 3  # snapshot tool (observing process)
@@ -78,6 +86,8 @@ def cases(seed, tier):
     out += [{'mode': 'crash', 'seed': seed, 'i': i, 'tier': tier} for i in range(N_CRASH[tier])]
     out += [{'mode': 'crash-optim', 'seed': seed, 'i': i, 'algo': ALGOS[i % len(ALGOS)], 'tier': tier} for i in range(N_CRASH_OPTIM[tier])]
     out += [{'mode': 'optim', 'seed': seed, 'i': i, 'algo': ALGOS[i % len(ALGOS)]} for i in range(N_OPTIM[tier])]
+    out += [{'mode': 'bootstrap', 'seed': seed, 'i': i, 'algo': ALGOS[i % len(ALGOS)]} for i in range(N_BOOT[tier])]
+    out += [{'mode': 'interleaved', 'seed': seed, 'i': i, 'algo': ALGOS[i % len(ALGOS)]} for i in range(N_INTER[tier])]
     out += [{'mode': 'scripted', 'seed': seed, 'i': i} for i in range(N_SCRIPTED[tier])]
     return out
 
@@ -190,27 +200,34 @@ def warmup():
     for name in ('calculate_likelihood_and_derivatives', 'calculate_likelihood', 'optimize', 'estimate'):
         MON.orig[name] = getattr(cls, name)
 
+    def foreign_object(S, obj):
+        # other BIOGEME objects (validate() builds its own, with other names and data) are not this session's model
+        if S.target is not None and obj is not S.target:
+            S.rec.c('calls_on_other_biogeme_objects_not_observed')
+            return True
+        return False
+
     def cld(self, x, *a, **kw):
         S = MON.ctx
-        if MON.mode == 'off' or S is None:
+        if MON.mode == 'off' or S is None or foreign_object(S, self):
             return MON.orig['calculate_likelihood_and_derivatives'](self, x, *a, **kw)
         return S.on_derivatives(self, x, a, kw)
 
     def cl(self, x, *a, **kw):
         S = MON.ctx
-        if MON.mode == 'off' or S is None:
+        if MON.mode == 'off' or S is None or foreign_object(S, self):
             return MON.orig['calculate_likelihood'](self, x, *a, **kw)
         return S.on_likelihood(self, x, a, kw)
 
     def opt(self, starting_values=None, *a, **kw):
         S = MON.ctx
-        if MON.mode != 'off' and S is not None:
+        if MON.mode != 'off' and S is not None and not foreign_object(S, self):
             S.on_optimize(self, starting_values)
         return MON.orig['optimize'](self, starting_values, *a, **kw)
 
     def est(self, *a, **kw):
         S = MON.ctx
-        if MON.mode != 'off' and S is not None:
+        if MON.mode != 'off' and S is not None and not foreign_object(S, self):
             S.on_estimate_begin(self)
         return MON.orig['estimate'](self, *a, **kw)
 
@@ -314,6 +331,8 @@ class Session:
         self.file_seen = 0
         self.max_file_size = 0
         self.viol_mechs = set()
+        self.target = None  # when set: only this BIOGEME object is observed
+        self.allow_foreign = False  # evaluations on other data than the estimation data are expected (bootstrap)
         self.stop_reported = set()
         self.witness_base = {'model_name': spec['model_name'], 'parameters': [p['name'][:60] for p in spec['params']], 'label': label}
 
@@ -365,8 +384,10 @@ class Session:
             self.first_eval = {'kind': 'likelihood', 'x': xd, 'f': f}
         if MON.mode == 'observe':
             self.rec.c('likelihood_only_evaluations')
+            self.rec.ev()
             if _read(self.path) != pre:
-                self.rec.c('file_changed_by_likelihood_only_evaluation')
+                self.viol('C15/iterfile-changed-by-likelihood-only-evaluation',
+                          f'[{self.label}] calculate_likelihood (no derivatives) changed the iteration file')
         return res
 
     def on_derivatives(self, bg, x, a, kw):
@@ -413,10 +434,24 @@ class Session:
             f, grad_finite = None, False
         if self.first_eval is None:
             self.first_eval = {'kind': 'derivatives', 'x': xd, 'f': f}
-        viol, info = self.scope.step(xd, f if f is not None else float('nan'), grad_finite, pre, post)
+        # numpy reference of the likelihood ON THE ESTIMATION DATA: guards the name <-> position mapping of the
+        # harness and tells evaluations made on other data (bootstrap resamples) from those the property is about
+        foreign = False
+        ref = None
+        mismatch = False
+        if exc is None and f is not None and math.isfinite(f) and all(math.isfinite(v) for v in xd.values()):
+            ref = self.gen.reference(self.spec, xd)
+            if math.isfinite(ref):
+                self.rec.ev()
+                self.rec.c('likelihood_compared_with_reference')
+                mismatch = not close(f, ref, 1e-9, 1e-9)
+                if mismatch and self.allow_foreign:
+                    foreign = True
+                    self.rec.c('evaluations_on_resampled_data')
+        viol, info = self.scope.step(xd, f if f is not None else float('nan'), grad_finite, pre, post, foreign=foreign)
         entry = {'k': k, 'x': {n[:40]: v.hex() for n, v in xd.items()} if len(xd) <= 6 else f'{len(xd)} values', 'f': f,
                  'grad_finite': grad_finite, 'kind': info['kind'], 'file': info['file'], 'xd': xd, 'pre': pre, 'post': post,
-                 'exc': type(exc).__name__ if exc else None, 'invariant': info.get('invariant')}
+                 'exc': type(exc).__name__ if exc else None, 'invariant': info.get('invariant'), 'foreign': foreign}
         self.calls.append(entry)
         rec = self.rec
         rec.ev()
@@ -432,15 +467,10 @@ class Session:
             rec.c('evaluation_raised_' + type(exc).__name__)
         for mech, msg in viol:
             self.viol(mech, f'[{self.label}] evaluation #{k}: {msg}', call=k)
-        # numpy reference of the likelihood: guards the name <-> position mapping of the harness
-        if exc is None and self.spec['kind'] == 'quad' and info['kind'] != 'noncandidate':
-            ref = self.gen.quad_reference(self.spec, xd)
-            rec.ev()
-            rec.c('likelihood_compared_with_reference')
-            if not close(f, ref, 1e-9, 1e-9):
-                # the harness misreads the model (name <-> position): no verdict can be taken from this case
-                rec.c('likelihood_differs_from_reference')
-                rec.inconc(f'[{self.label}] evaluation #{k}: returned likelihood {f!r} differs from the numpy reference {ref!r}')
+        if mismatch and not self.allow_foreign:
+            # the harness misreads the model (name <-> position): no verdict can be taken from this case
+            rec.c('likelihood_differs_from_reference')
+            rec.inconc(f'[{self.label}] evaluation #{k}: returned likelihood {f!r} differs from the numpy reference {ref!r}')
         self.judge_snapshots(snap, entry)
         if pending is not None:
             self.judge_crashes(pending, entry, snap)
@@ -561,7 +591,7 @@ class Session:
         for idx, (at, content) in enumerate(snap['states']):
             if idx == 0:
                 continue  # state before the call
-            viol, info = orc.check_crash_state(self.names, entry['pre'], content, entry['xd'], acceptable)
+            viol, info = orc.check_crash_state(self.names, entry['pre'], content, entry['xd'], acceptable, foreign=entry.get('foreign', False))
             rec.ev()
             rec.c('boundary_state_' + info['state'])
             self._report_stop_state(viol, info, entry, entry['k'], 'statement-boundary snapshot', at, content)
@@ -572,7 +602,7 @@ class Session:
         rec = self.rec
         acceptable = entry['kind'] in ('first', 'improving', 'tie')
         for fnd in pending['found']:
-            viol, info = orc.check_crash_state(self.names, pending['pre'], fnd['content'], entry['xd'], acceptable)
+            viol, info = orc.check_crash_state(self.names, pending['pre'], fnd['content'], entry['xd'], acceptable, foreign=entry.get('foreign', False))
             rec.ev()
             rec.c('crash_state_' + info['state'])
             rec.c(f'crash_points_{fnd["by"]}')
@@ -598,13 +628,77 @@ class Session:
 # ---------------------------------------------------------------------------
 # building real objects
 # ---------------------------------------------------------------------------
-def _make_biogeme(spec, algo=None, max_iter=None):
+_ACCEPTED: dict = {}
+
+
+def _library_accepts(spec) -> str | None:
+    """None when the library (expressions + external engine) takes the model through a construction and one
+    likelihood evaluation; otherwise how it refused (exception type, or the signal that killed the process:
+    the engine's signature parser aborts on some characters). Runs in a forked copy."""
+    pid = os.fork()
+    if pid == 0:
+        code = 0
+        try:
+            MON.mode = 'off'
+            d = tempfile.mkdtemp(prefix='accept_', dir='.')
+            os.chdir(d)
+            try:
+                os.dup2(os.open(os.devnull, os.O_WRONLY), 2)
+            except OSError:
+                pass
+            bg = _make_biogeme(spec)
+            bg.save_iterations = False
+            bg.calculate_likelihood(list(bg.id_manager.free_betas_values), scaled=False)
+        except BaseException:  # noqa
+            code = 3
+        finally:
+            os._exit(code)
+    _, st = os.waitpid(pid, 0)
+    if os.WIFSIGNALED(st):
+        return f'engine_abort_signal_{os.WTERMSIG(st)}'
+    return None if os.WEXITSTATUS(st) == 0 else 'library_error'
+
+
+def _sanitize_names(spec):
+    """Only names the library itself accepts are judged: a name it refuses is replaced by a plain one
+    and counted (spec['refused'])."""
+    from ..gen import c15_gen as gen
+
+    spec.setdefault('refused', [])
+    if _library_accepts(spec) is None:
+        return spec
+    for j, p in enumerate(spec['params']):
+        n = p['name']
+        if n.isidentifier() and n.isascii():
+            continue
+        if n not in _ACCEPTED:
+            _ACCEPTED[n] = _library_accepts(_simple_spec([n, 'zz_plain'], 'accept'))
+        if _ACCEPTED[n] is not None:
+            spec['refused'].append([n[:60], _ACCEPTED[n], gen.name_class(n)])
+            new = 'R%d_' % j + ''.join(ch for ch in n if ch.isascii() and ch.isalnum())[:20]
+            while new in [q['name'] for q in spec['params']]:
+                new += 'x'
+            p['name'] = new
+    how = _library_accepts(spec)
+    if how is not None:
+        # the combination is refused although each name alone is accepted: fall back to plain names, counted
+        for j, p in enumerate(spec['params']):
+            if not (p['name'].isidentifier() and p['name'].isascii()):
+                spec['refused'].append([p['name'][:60], 'in_combination_' + how, gen.name_class(p['name'])])
+                p['name'] = 'C%d_plain' % j
+    return spec
+
+
+def _make_biogeme(spec, algo=None, max_iter=None, bootstrap=None):
     from biogeme.biogeme import BIOGEME
     from biogeme.parameters import Parameters
     from ..gen import c15_gen as gen
 
     db, ll = gen.build(spec)
     p = Parameters()
+    if bootstrap:
+        p.set_value('bootstrap_samples', int(bootstrap), 'Estimation')
+        p.set_value('seed', 1000 + int(bootstrap), 'MonteCarlo')  # numpy seed used by the resampling: replayable
     if algo:
         p.set_value('optimization_algorithm', algo, 'Estimation')
     if max_iter:
@@ -732,7 +826,8 @@ def judge_restart(sess: Session, content, res, original_start_f, context: str):
         rec.ev()
         rec.c('restart_start_likelihood_compared')
         if first['f'] < original_start_f - 1e-9 * abs(original_start_f):
-            sess.viol('C15/restart-begins-below-original-start',
+            # after a bootstrap the saved point may be a resample's optimum: same mechanism as the overwrite itself
+            sess.viol('C15/iterfile-overwritten-by-evaluation-on-resampled-data' if sess.allow_foreign else 'C15/restart-begins-below-original-start',
                       f'[{context}] the later estimation starts at LL {first["f"]!r}, the original one started at {original_start_f!r}', **wit)
     if res.get('exc'):
         if P['ok'] and _is_tame(P['values']):
@@ -804,8 +899,16 @@ def _first_candidate_f(sess):
 
 
 def _account_names(rec, spec):
+    from ..gen import c15_gen as gen
+
+    for n_, how, classes in spec.get('refused', []):
+        rec.c('names_refused_by_library_' + how)
+        for c in classes:
+            rec.c('names_refused_by_library_class_' + c)
     for p in spec['params']:
         n = p['name']
+        for c in gen.name_class(n):
+            rec.c('names_' + c)
         if ' ' in n or '\t' in n:
             rec.c('names_with_inner_white_space')
         if any(ord(ch) > 127 for ch in n):
@@ -832,6 +935,7 @@ def _gen_scripted(case, crash=False):
         names_mode = r.choice(['hostile', 'hostile', 'plain', 'long' if k >= 20 else 'hostile'])
         length = r.randint(3, 40) if r.random() < 0.8 else r.randint(40, 120)
     spec = gen.make_quad(r, k, names_mode, hostile_values=r.random() < 0.7, with_log=r.random() < 0.6, with_sqrt=r.random() < 0.5)
+    _sanitize_names(spec)
     steps = gen.make_history(r, spec, length, nonfinite=True)
     scaled_mode = r.choice(['never', 'never', 'never', 'always', 'mixed'])
     return r, spec, steps, scaled_mode
@@ -913,6 +1017,7 @@ def _optim_spec(case):
         for p in spec['params']:
             if p['role'] == 'logp':
                 p['init'] = r.choice([0.5, 2.0, 3.0])
+    _sanitize_names(spec)
     return r, spec, algo
 
 
@@ -1015,6 +1120,116 @@ def run_crash_optim(case, rec):
     return sess
 
 
+def _fixed_logit_spec(names=('asc', 'b1', 'b2'), model='boot_directed'):
+    from ..gen import c15_gen as gen
+
+    spec = gen.make_logit(random.Random(12345), 'plain', False)
+    for p, n in zip(spec['params'], names):
+        p['name'] = n
+    spec['model_name'] = model
+    return spec
+
+
+def run_bootstrap(case, rec, spec=None, algo=None, nboot=None):
+    """estimate(run_bootstrap=True): the evaluations made on the bootstrap resamples are not evaluations on the
+    estimation data (told apart by the numpy reference of the likelihood on the estimation data); the file must
+    keep holding the best point evaluated on the estimation data, and the later estimation starts from it."""
+    from ..oracle import c15_oracle as orc
+
+    if spec is None:
+        r, spec, algo = _optim_spec(case)
+        nboot = r.choice([3, 5, 8])
+    sess = Session(rec, spec, f'estimate({algo}, run_bootstrap=True)')
+    sess.allow_foreign = True
+    MON.ctx, MON.mode = sess, 'observe'
+    bg = _make_biogeme(spec, algo, 100, bootstrap=nboot)
+    sess.target = bg
+    _account_names(rec, spec)
+    rec.c('bootstrap_algorithm_' + algo)
+    try:
+        bg.estimate(run_bootstrap=True)
+    except BaseException as e:  # noqa
+        MON.mode = 'off'
+        rec.c('estimate_raised_' + type(e).__name__)
+        rec.inconc(f'estimate({algo}, run_bootstrap=True) raised {type(e).__name__}: {str(e)[:200]}')
+        return sess
+    MON.mode = 'off'
+    rec.c('estimations_with_bootstrap')
+    if sess.calls:
+        rec.key(['bootstrap', spec, algo, nboot])
+    start1 = sess.first_eval['f'] if sess.first_eval else None
+    final = _read(sess.path)
+    # what the file holds at the end, judged on the estimation data
+    P = orc.parse_iter(final, sess.names)
+    cands = [c for c in sess.calls if c['kind'] != 'noncandidate' and c['f'] is not None]
+    if P['ok'] and cands:
+        ref_saved = sess.gen.reference(spec, P['values'])
+        best = max(c['f'] for c in cands)
+        rec.ev()
+        rec.c('final_file_after_bootstrap_judged')
+        rec.sample({'algorithm': algo, 'bootstrap_samples': nboot, 'best_LL_on_estimation_data': best,
+                    'LL_on_estimation_data_at_saved_point': ref_saved, 'original_start_LL': start1,
+                    'evaluations_on_resamples': sum(1 for c in sess.calls if c.get('foreign'))})
+        if ref_saved < best - 1e-9 * abs(best):
+            rec.c('final_file_after_bootstrap_below_best_on_estimation_data')
+    _restarts_for_contents(sess, [final], algo, start1, f'after estimate({algo}, run_bootstrap=True)', max_iter=100)
+    return sess
+
+
+def run_interleaved(case, rec):
+    """other public operations between two estimations must leave the file a sound restart point:
+    calculate_init_likelihood, simulate, quick_estimate, validate (which estimates other objects on slices)."""
+    from ..oracle import c15_oracle as orc
+
+    r, spec, algo = _optim_spec(case)
+    sess = Session(rec, spec, f'interleaved({algo})')
+    MON.ctx, MON.mode = sess, 'observe'
+    bg = _make_biogeme(spec, algo, 100)
+    sess.target = bg
+    _account_names(rec, spec)
+    rec.c('interleaved_algorithm_' + algo)
+    try:
+        results = bg.estimate()
+    except BaseException as e:  # noqa
+        MON.mode = 'off'
+        rec.inconc(f'estimate({algo}) raised {type(e).__name__}: {str(e)[:200]}')
+        return sess
+    start1 = sess.first_eval['f'] if sess.first_eval else None
+    if sess.calls:
+        rec.key(['interleaved', spec, algo])
+    ops = ['calculate_init_likelihood', 'simulate', 'quick_estimate', 'calculate_likelihood']
+    r.shuffle(ops)
+    ops.append('validate')  # last: it re-uses the expression objects of the model with other databases
+    for op in ops:
+        before = _read(sess.path)
+        try:
+            if op == 'calculate_init_likelihood':
+                bg.calculate_init_likelihood()
+            elif op == 'calculate_likelihood':
+                bg.calculate_likelihood([0.1] * len(sess.names), scaled=True)
+            elif op == 'simulate':
+                bg.simulate(results.get_beta_values())
+            elif op == 'quick_estimate':
+                bg.quick_estimate()  # derivative evaluations: judged call by call by the wrapper (same best-so-far run)
+            elif op == 'validate':
+                if len(spec['rows']) >= 10:
+                    bg.validate(results, bg.database.split(slices=2))
+                else:
+                    continue
+            rec.c('interleaved_' + op)
+        except BaseException as e:  # noqa
+            rec.c(f'interleaved_{op}_raised_{type(e).__name__}')
+            continue
+        after = _read(sess.path)
+        rec.ev()
+        if op != 'quick_estimate' and after != before:
+            sess.viol(f'C15/iterfile-changed-by-{op.replace("_", "-")}', f'[{sess.label}] {op}() changed the iteration file of the model')
+    MON.mode = 'off'
+    final = _read(sess.path)
+    _restarts_for_contents(sess, [final], algo, start1, f'after estimate({algo}) and other operations', max_iter=100)
+    return sess
+
+
 # -- directed, deterministic cases (both tiers) ---------------------------------
 # The first five reproduced defects of the tree as found (findings/C15.md); they were repaired in /repo
 # (best-so-far marker updated + NaN guard, write to <file>.tmp then os.replace, loader splitting on the
@@ -1082,6 +1297,22 @@ def run_directed(case, rec):
         rec.key(['directed', name])
         _restarts_for_contents(sess, [_read(sess.path)], 'simple_bounds', _first_candidate_f(sess), 'directed ' + name)
         return sess
+    if name == 'bootstrap-overwrites':
+        return run_bootstrap(case, rec, spec=_fixed_logit_spec(), algo='simple_bounds', nboot=12)
+    if name == 'comment-like-names':
+        names = ['scale', '#shift', '  # of trips', '; note', '// x', '[sec]', "'q'"]
+        spec = _sanitize_names(_simple_spec(names, 'comment_names', inits=[0.25] * len(names), cs=[1.0, 0.5, -0.5, 0.8, -0.8, 0.3, 0.6]))
+        nm = [p['name'] for p in spec['params']]
+        steps = _steps([('first', {n: 3.0 + i for i, n in enumerate(nm)}), ('improve', {n: 1.5 + 0.1 * i for i, n in enumerate(nm)})])
+        sess = Session(rec, spec, 'directed:' + name)
+        MON.ctx, MON.mode = sess, 'observe'
+        bg = _make_biogeme(spec, 'simple_bounds', 3)
+        _account_names(rec, spec)
+        _drive(sess, bg, steps, 'never')
+        MON.mode = 'off'
+        rec.key(['directed', name])
+        _restarts_for_contents(sess, [_read(sess.path)], 'simple_bounds', _first_candidate_f(sess), 'directed ' + name)
+        return sess
     if name == 'list-point-nonfinite':
         # informational: a non-finite gradient at a point given as a list
         spec = _simple_spec(['b1'], 'list_nonfinite', logp='p')
@@ -1115,6 +1346,10 @@ def run_case(case):
             run_optim(case, rec)
         elif mode == 'crash-optim':
             run_crash_optim(case, rec)
+        elif mode == 'bootstrap':
+            run_bootstrap(case, rec)
+        elif mode == 'interleaved':
+            run_interleaved(case, rec)
         else:
             raise ValueError(mode)
     finally:
@@ -1148,7 +1383,9 @@ def finalize(cov, tier):
             'transition_noncandidate', 'line_stop_points', 'syscall_stop_points', 'evaluations_with_every_line_stop_point_really_killed',
             'real_kill_compared_with_snapshot', 'statement_boundaries_observed', 'crash_state_previous', 'restart_probes',
             'restart_started_from_saved_values', 'restart_started_from_defaults_without_file', 'likelihood_compared_with_reference',
-            'names_with_inner_white_space', 'names_with_non_ascii', 'names_200_chars_or_more', 'parameters_with_hostile_values_huge',
+            'names_with_inner_white_space', 'names_with_non_ascii', 'names_200_chars_or_more', 'names_comment_or_section_like_start',
+            'names_edge_white_space', 'names_equals_sign', 'names_reads_as_number', 'estimations_with_bootstrap', 'evaluations_on_resampled_data',
+            'interleaved_quick_estimate', 'interleaved_validate', 'interleaved_simulate', 'later_estimation_derivative_evaluations_monitored', 'parameters_with_hostile_values_huge',
             'parameters_with_hostile_values_tiny', 'histories_with_file_of_8KiB_or_more', 'crash_histories_with_file_of_8KiB_or_more',
             'second_estimate_fresh_start_without_file', 'second_estimate_same_object_with_file', 'models_with_16-41_parameters']
     need += ['algorithm_' + a for a in ALGOS]
